@@ -1013,4 +1013,109 @@ theorem run_pending (P : Params) (ws : List Wait) (L : Loop) (sc : List Answer) 
         · exact ⟨rfl, rfl⟩
         · exact ih _ _ rfl rfl
 
+
+/-! ### shapes of a segment -/
+
+theorem prescribed_shapes (P : Params) (x : Nat) (m : Mask) :
+    prescribed P x m ∈ [[], [(x, .error)], [(x, .read)], [(x, .write)], [(x, .read), (x, .write)]] := by
+  unfold prescribed
+  cases isErr m <;> cases (isIn m && P.hasRead x) <;> cases (isOut m && P.hasWrite x) <;> simp
+
+theorem entry_shapes (P : Params) (e : Entry) (L : Loop) (sc : List Answer) (x : Nat) (h : e.ev = some x) :
+    callsOf (entry P e L sc).seg ∈
+      [[], [(x, .error)], [(x, .read)], [(x, .write)], [(x, .read), (x, .write)]] := by
+  rcases entry_calls P e L sc x h with h1 | ⟨_, _, h1, _⟩
+  · rw [h1]; exact prescribed_shapes P x e.mask
+  · rw [h1]; simp
+
+theorem entry_shapes' (P : Params) (e : Entry) (L : Loop) (sc : List Answer) :
+    ∃ x, callsOf (entry P e L sc).seg ∈
+      [[], [(x, .error)], [(x, .read)], [(x, .write)], [(x, .read), (x, .write)]] := by
+  cases h : e.ev with
+  | none => exact ⟨0, by rw [entry_none _ _ _ _ h]; simp [callsOf]⟩
+  | some x => exact ⟨x, entry_shapes P e L sc x h⟩
+
+/-! ### no `harvest` event inside a dispatch -/
+
+theorem dispatchLoop_no_harvest (P : Params) (n : Nat) (L : Loop) (sc : List Answer) (b : List (Nat × Mask)) :
+    TEv.harvest b ∉ (dispatchLoop P n L sc).trace := by
+  have hcb : ∀ x f L sc, TEv.harvest b ∉ (callback P x f L sc).trace := by
+    intro x f L sc
+    rw [callback_trace]
+    intro hm
+    simp only [List.mem_cons, List.mem_append, reduceCtorEq, false_or, or_false, List.not_mem_nil] at hm
+    exact runActs_actEv P _ L _ hm
+  have hwp : ∀ x m L sc, TEv.harvest b ∉ (writePart P x m L sc).seg := by
+    intro x m L sc
+    unfold writePart
+    split
+    · split
+      · exact hcb _ _ _ _
+      · simp
+    · simp
+  have hen : ∀ e L sc, TEv.harvest b ∉ (entry P e L sc).seg := by
+    intro e L sc
+    unfold entry
+    split
+    · simp
+    · dsimp only
+      split
+      · exact hcb _ _ _ _
+      · split
+        · split
+          · exact hcb _ _ _ _
+          · exact hcb _ _ _ _
+          · dsimp only
+            intro hm
+            rcases List.mem_append.1 hm with hm | hm
+            · exact hcb _ _ _ _ hm
+            · exact hwp _ _ _ _ hm
+        · exact hwp _ _ _ _
+  induction n generalizing L sc with
+  | zero => simp [dispatchLoop, DispRes.trace]
+  | succ n ih =>
+    cases hL : L.todo with
+    | nil => rw [dispatchLoop_nil P _ L sc hL]; simp [DispRes.trace]
+    | cons e rest =>
+      rw [dispatchLoop_cons P n L sc e rest hL]
+      split
+      · simpa [DispRes.trace] using hen _ _ _
+      · simp only [DispRes.trace, List.flatten_cons, List.mem_append, not_or]
+        exact ⟨hen _ _ _, ih _ _⟩
+
+/-! ### the error test, bit by bit -/
+
+theorem errBits_table : ∀ i : Fin 32, (~~~(EPOLLIN ||| EPOLLOUT)).getLsbD i.val = decide (i.val ≠ 0 ∧ i.val ≠ 2) := by
+  decide
+
+theorem isErr_iff_bit (m : Mask) : isErr m = true ↔ ∃ i, i < 32 ∧ i ≠ 0 ∧ i ≠ 2 ∧ m.getLsbD i = true := by
+  unfold isErr
+  constructor
+  · intro h
+    apply Classical.byContradiction
+    intro hne
+    have : m &&& ~~~(EPOLLIN ||| EPOLLOUT) = 0#32 := by
+      apply BitVec.eq_of_getLsbD_eq
+      intro i hi
+      rw [BitVec.getLsbD_and]
+      have ht := errBits_table ⟨i, hi⟩
+      simp only at ht
+      rw [ht]
+      cases hb : m.getLsbD i with
+      | false => simp
+      | true =>
+        by_cases hc : i ≠ 0 ∧ i ≠ 2
+        · exact absurd ⟨i, hi, hc.1, hc.2, hb⟩ hne
+        · simp [hc]
+    simp [this] at h
+  · rintro ⟨i, hi, h0, h2, hb⟩
+    have ht := errBits_table ⟨i, hi⟩
+    simp only at ht
+    have : (m &&& ~~~(EPOLLIN ||| EPOLLOUT)).getLsbD i = true := by
+      rw [BitVec.getLsbD_and, ht, hb]; simp [h0, h2]
+    simp only [bne_iff_ne, ne_eq]
+    intro h0'
+    rw [h0'] at this
+    simp at this
+
 end Cjet.Evloop
